@@ -21,6 +21,8 @@ RULE = ("generated SVG documents: group trees of depth <= 4, every group/leaf wi
 ASSUMPTIONS = ["transform arguments are separated by single commas/spaces (parse_transform splits on those)",
                "tolerance 1e-8 * size * cond(M) (arcs 1e-6); matrices with condition number above 1e3 are not generated",
                "circles/ellipses are compared as point sets (the library starts them at 9 o'clock)"]
+# coverage-guided second engine (atheris), thorough tier only: (shards, libFuzzer runs per shard)
+FUZZ = {'thorough': (16, 8000)}
 CONFIGS = ['scipy']
 BUDGET = {'quick': 4000, 'thorough': 60000}
 REQUIRED = ['leaf:path', 'leaf:line', 'leaf:polyline', 'leaf:polygon', 'leaf:rect', 'leaf:rect_rounded', 'leaf:circle', 'leaf:ellipse',
